@@ -22,10 +22,18 @@ import (
 var c11Dates = []string{"20240101", "20240105", "20240110", "20240120", "20240131", "2024-01-10"}
 var c11DateNames = []string{"before", "start", "inside", "end", "after", "unparseable"}
 
+// c11RangeSets: the s1 range and the five probe dates; the second set sits on the days on
+// which zones east of UTC switch daylight saving time (the switch precedes UTC midnight there)
+var c11RangeSets = [][]string{
+	{"20240101", "20240105", "20240110", "20240120", "20240131"},
+	{"20240407", "20240409", "20240601", "20241006", "20241007"},
+}
+
 func c11Harness(maxRows int) Harness {
 	return func(c *Ctx) {
 		m := genStaticFeedN(c, false, baseCounts, nil, nil)
-		zone := []string{"America/New_York", "Europe/London", "Mars/Phobos"}[c.Free("first_agency_zone", 3)]
+		zone := []string{"America/New_York", "Europe/London", "Mars/Phobos", "Australia/Sydney", "Australia/Lord_Howe"}[c.Free("first_agency_zone", 5)]
+		dates := append(append([]string{}, c11RangeSets[c.Free("date_set", 2)]...), "2024-01-10")
 		m.t("agency.txt").set(0, "agency_timezone", zone)
 		cal := m.t("calendar.txt")
 		cd := m.t("calendar_dates.txt")
@@ -33,8 +41,8 @@ func c11Harness(maxRows int) Harness {
 		s2, _ := cal.get(1, "service_id")
 		s3 := "X1"
 		svc := []string{s1, s2, s3}
-		cal.set(0, "start_date", "20240105")
-		cal.set(0, "end_date", "20240120")
+		cal.set(0, "start_date", dates[1])
+		cal.set(0, "end_date", dates[3])
 		calOpt := c.Free("calendar", 5)
 		dup := false
 		switch calOpt {
@@ -67,7 +75,7 @@ func c11Harness(maxRows int) Harness {
 			row := append([]string{}, proto...)
 			cd.Rows = append(cd.Rows, row)
 			cd.set(r, "service_id", svc[sv])
-			cd.set(r, "date", c11Dates[d])
+			cd.set(r, "date", dates[d])
 			cd.set(r, "exception_type", fmt.Sprint(ty+1))
 			desc = append(desc, fmt.Sprintf("(%s,%s,%d)", svc[sv], c11DateNames[d], ty+1))
 			if sv == 0 && (d == 0 || d == 4) && ty < 2 && (calOpt == 0 || calOpt == 3 || calOpt == 4) {
@@ -89,7 +97,7 @@ func c11Harness(maxRows int) Harness {
 		b := renderFeed(m, presentation{})
 		key := fmt.Sprintf("zone=%s calendar=%d exceptions=%s", zone, calOpt, strings.Join(desc, ""))
 		c.Input(hash64(string(b)), nRows > 0, func() string { return key + "\n" + m.text() })
-		c.SetMapMode(mapFree)
+		c.SetMapRotation(c.Free("map_rotation", 3))
 		r, err, ok := parseStaticGuarded(c, b, gtfs.ParseStaticOptions{})
 		c.SetMapMode(mapFixed)
 		if !ok {
@@ -153,7 +161,7 @@ func init() {
 	register(&Check{
 		ID:    "C11",
 		Level: "model_checking",
-		Rule: "full product: calendar.txt {s1, empty, absent, s1+s2, s1 twice} x 0..2 (thorough 0..3) exception rows over 3 services x 6 dates (before/start/inside/end/after the s1 range, unparseable) x 3 exception types x 3 zones of the first agency x all map rotations of the Services loop; " +
+		Rule: "full product: calendar.txt {s1, empty, absent, s1+s2, s1 twice} x 0..2 (thorough 0..3) exception rows over 3 services x 6 dates (before/start/inside/end/after the s1 range, unparseable) x 3 exception types x 5 zones of the first agency (New_York, London, unknown, Sydney, Lord_Howe) x 2 date sets (January; the southern DST switch days) x map iteration starts 0, 1, 2 at every library range; " +
 			"non-trivial = distinct archives with at least one exception row; oracle = reference merge (all admissible readings) + direct invariants (unique ids, start <= exception <= end)",
 		Assumptions: []string{"two calendar rows with one id: either row may win", "an exception row with an unsupported type creates nothing, adds no date, and may or may not widen an existing range"},
 		Scenarios: func(tier string) []*Scenario {
